@@ -1,0 +1,50 @@
+//go:build verif
+
+package tls
+
+// Read-only accessors for the verification harness (no call sites in the library).
+
+// VerifCurveID returns the key-exchange group recorded in a ConnectionState.
+func VerifCurveID(cs ConnectionState) CurveID { return cs.testingOnlyCurveID }
+
+// VerifSuiteInfo describes one entry of the library's cipher-suite tables.
+type VerifSuiteInfo struct {
+	ID                    uint16
+	KeyLen, MacLen, IVLen int
+	ECDHE, ECSign, TLS12  bool
+	SHA384                bool
+	AEAD, TLS13           bool
+	InDefaultTable        bool // present in cipherSuites (as opposed to utls additions)
+	Supported             bool // present in utlsSupportedCipherSuites right now
+}
+
+func VerifSuites() []VerifSuiteInfo {
+	var out []VerifSuiteInfo
+	seen := map[uint16]bool{}
+	add := func(cs *cipherSuite, def bool) {
+		if seen[cs.id] {
+			return
+		}
+		seen[cs.id] = true
+		out = append(out, VerifSuiteInfo{ID: cs.id, KeyLen: cs.keyLen, MacLen: cs.macLen, IVLen: cs.ivLen,
+			ECDHE: cs.flags&suiteECDHE != 0, ECSign: cs.flags&suiteECSign != 0, TLS12: cs.flags&suiteTLS12 != 0,
+			SHA384: cs.flags&suiteSHA384 != 0, AEAD: cs.aead != nil, InDefaultTable: def, Supported: cipherSuiteByID(cs.id) != nil})
+	}
+	for _, cs := range cipherSuites {
+		add(cs, true)
+	}
+	for _, cs := range utlsSupportedCipherSuites {
+		add(cs, false)
+	}
+	for _, cs := range cipherSuitesTLS13 {
+		if !seen[cs.id] {
+			seen[cs.id] = true
+			out = append(out, VerifSuiteInfo{ID: cs.id, KeyLen: cs.keyLen, AEAD: true, TLS13: true, InDefaultTable: true, Supported: true,
+				SHA384: cs.hash.Size() == 48})
+		}
+	}
+	return out
+}
+
+// VerifHostnameInSNI is the normalisation the library applies to Config.ServerName before sending it.
+func VerifHostnameInSNI(name string) string { return hostnameInSNI(name) }
